@@ -124,6 +124,10 @@ func NewStructureType(s *specification.Schema, components Componenter, cfg Confi
 			return zero, nil, fmt.Errorf("additional properties: %w", err)
 		}
 		imports = append(imports, ims...)
+		if _, ok := additional.Type.(StructureType); ok && additional.Ref == nil && !additional.IsCustom() {
+			sc := components.AddSchema("AdditionalProperties", additional, cfg)
+			additional.Ref = sc
+		}
 		render := GoTypeRender(additional)
 		stype.AdditionalProperties = &render
 	}
